@@ -208,10 +208,17 @@ class Rule(
         # has to be checked before the alias conversion, which removes the "anything" marker
         self._assert_anything_only_used_with_should_not()
         self._assert_rule_subjects_to_be_dropped_exist(evaluable)
-        self._configuration = self._convert_aliases(self._configuration)
-        self._assert_required_configuration_present()
 
-        matcher = self._prepare_rule_matcher()
+        # the alias conversion is only needed to evaluate the rule: the rule itself keeps what has been specified, so
+        # that it can be applied again (e.g. to another evaluable) and is checked in full every time
+        specified_configuration = self._configuration
+        self._configuration = self._convert_aliases(specified_configuration)
+        try:
+            self._assert_required_configuration_present()
+            matcher = self._prepare_rule_matcher()
+        finally:
+            self._configuration = specified_configuration
+
         matcher.match(evaluable)
 
     def _assert_rule_subjects_to_be_dropped_exist(
